@@ -258,6 +258,12 @@ func (b *BlockList) readBlocklists() error {
 			return nil
 		}
 		if !f.IsDir() {
+			if strings.HasPrefix(f.Name(), persistTempPrefix) {
+				// Leftover of an interrupted persist: the complete
+				// previous list is the file it never replaced.
+				_ = os.Remove(path) //nolint:gosec // G122 - trusted local temp files, not user-controlled symlinks
+				return nil
+			}
 			file, err := os.Open(path) //nolint:gosec // G304 - path from walk, not user input
 			if err != nil {
 				return fmt.Errorf("error opening file: %w", err)
